@@ -25,3 +25,7 @@ func HashBitVectors() { intrinsic() }
 // Fix assumes x == k (k concrete) and makes every later computation of the same term continue with k
 // (engine/sym/fixed_terms.go).
 func Fix(x uint64, k uint64) { intrinsic() }
+
+// ClockSteps switches to the step clock: first reading arbitrary, every later reading = wake-up time of the last
+// Sleep (or the previous reading) plus either 0 or stallSeconds (forked), see engine/sym/models_clock.go.
+func ClockSteps(stallSeconds int) { intrinsic() }
